@@ -136,7 +136,9 @@ inductive Ev where
       executed by EXEC (`viaExec = true`; same route, except that EXEC passes connection id 0, so a SELECT inside a
       transaction selects nothing).  `EVAL <wrapper> 0 inner…` is the script path. -/
   | cmd (viaExec : Bool) (now : Nat) (obs : Option (List Bytes)) (raw : List Bytes)
-  /-- `wake_client`: the pop (`storage.lpop/rpop(db, key)`) performed on behalf of a blocked client being served -/
+  /-- the pop (`storage.lpop/rpop(db, key)`) performed on behalf of a BLPOP/BRPOP client: by `wake_client` when a blocked
+      client is served, or at once by `handle_blpop`/`handle_brpop` on a non-empty list (the BLPOP command itself, which
+      is not in the table, is a separate `cmd` event without effect) -/
   | wake (db : Nat) (now : Nat) (left : Bool) (key : Bytes)
   deriving Repr, DecidableEq
 
@@ -163,6 +165,9 @@ structure Cfg where
 
 /-- the code as it is, with write table `w` (= `Gen.writeCommands`) -/
 def Cfg.code (w : List String) : Cfg := { writes := w, logSelect := false, logWake := false }
+/-- the tree as the translator sees it: write table, "is a SELECT emitted on a database change?", "does the pop made
+    for a blocking client get logged?" (`Cfg.tree w false false = Cfg.code w`) -/
+def Cfg.tree (w : List String) (sel wake : Bool) : Cfg := { writes := w, logSelect := sel, logWake := wake }
 /-- what the property prescribes, with write table `w` -/
 def Cfg.fixed (w : List String) : Cfg := { writes := w, logSelect := true, logWake := true }
 
